@@ -52,13 +52,13 @@ def _snap(self):
 
 
 def _wrap_step(orig):
-    def optimization_step(self):
+    def optimization_step(self, *args, **kwargs):
         m = CUR.mon
         if m is None:
-            return orig(self)
+            return orig(self, *args, **kwargs)
         m.steps += 1
         m.phase = f"cycle{m.steps}"
-        r = orig(self)
+        r = orig(self, *args, **kwargs)
         m.snaps.append(_snap(self))
         return r
     optimization_step.__wrapped__ = orig
@@ -68,12 +68,12 @@ def _wrap_step(orig):
 
 
 def _wrap_init_population(orig):
-    def _init_population(self):
+    def _init_population(self, *args, **kwargs):
         m = CUR.mon
         if m is None:
-            return orig(self)
+            return orig(self, *args, **kwargs)
         m.phase = "init"
-        r = orig(self)
+        r = orig(self, *args, **kwargs)
         m.init_calls += 1
         snap = _snap(self)
         if m.init_calls == 1:
@@ -109,10 +109,10 @@ _orig_get_pool_results = None
 _orig_get_pool_executor = None
 
 
-def _get_pool_executor_observing(mode, n_workers=None):
+def _get_pool_executor_observing(*args, **kwargs):
     """the repository's own executor, with submit() wrapped so that the COMPLETION order of the futures is recorded
     independently of the order in which the library later gathers the results"""
-    ex = _orig_get_pool_executor(mode, n_workers)
+    ex = _orig_get_pool_executor(*args, **kwargs)      # signature-agnostic: the repository may add parameters
     m = CUR.mon
     if m is None:
         return ex
@@ -134,11 +134,11 @@ def _get_pool_executor_observing(mode, n_workers=None):
     return ex
 
 
-def _get_pool_results_observing(executors):
+def _get_pool_results_observing(executors, *args, **kwargs):
     """calls the repository's own get_pool_results and observes what it returned (used by default: the real
     function stays in the path, so a defect in it is visible)"""
     m = CUR.mon
-    res = _orig_get_pool_results(executors)
+    res = _orig_get_pool_results(executors, *args, **kwargs)
     if m is not None:
         try:
             by_id = {}
@@ -160,24 +160,30 @@ def _get_pool_results_observing(executors):
 
 
 def _wrap_greedy_population(orig):
-    def _greedy_select_population(self, new_population):
+    def _greedy_select_population(self, *args, **kwargs):
         m = CUR.mon
         if m is None:
-            return orig(self, new_population)
-        old = [(copy.deepcopy(a.position), a.cost) for a in self._population]
-        new = [(copy.deepcopy(a.position), a.cost) for a in new_population]
-        r = orig(self, new_population)
-        m.greedy.append((old, new, [(copy.deepcopy(a.position), a.cost) for a in self._population], self._mode.value))
+            return orig(self, *args, **kwargs)
+        try:
+            new_population = args[0] if args else kwargs.get("new_population")
+            old = [(copy.deepcopy(a.position), a.cost) for a in self._population]
+            new = [(copy.deepcopy(a.position), a.cost) for a in new_population]
+        except Exception:
+            old = new = None
+        r = orig(self, *args, **kwargs)
+        if old is not None:
+            m.greedy.append((old, new, [(copy.deepcopy(a.position), a.cost) for a in self._population], self._mode.value))
         return r
     _greedy_select_population.__wrapped__ = orig
     return _greedy_select_population
 
 
 def _wrap_generate_agents(orig):
-    def _generate_agents(self, n_agents):
+    def _generate_agents(self, *args, **kwargs):
         m = CUR.mon
-        r = orig(self, n_agents)
-        if m is not None:
+        r = orig(self, *args, **kwargs)
+        n_agents = args[0] if args else kwargs.get("n_agents")
+        if m is not None and isinstance(n_agents, int):
             m.generate.append((n_agents, len(r), m.phase))
             if m.phase == "init":
                 m.generated_init.append((n_agents, len(r), m.phase, [copy.deepcopy(a.position) for a in r]))
